@@ -45,7 +45,7 @@ payload = st.one_of(
     st.binary(max_size=24),
     st.sampled_from([b"", b"\x0134=7\x01", b"\x00\x01\xff", b"58=x\x0134=999\x0110=000\x01", "é€".encode()]),
 )
-sess = st.integers(0, 3)  # index into the per-history session table
+sess = st.sampled_from([0, 0, 1, 1, 2, 3])  # index into the per-history session table (biased to the first two)
 dirn = st.sampled_from(["in", "out"])
 bound = st.one_of(st.integers(0, 14), st.sampled_from([0, -1, 100, 2**31, BIG, sys.maxsize]))
 
@@ -56,13 +56,15 @@ op = st.one_of(
     st.tuples(st.just("persist"), sess, dirn, num, payload),
     st.tuples(st.just("set"), sess, st.one_of(st.none(), small_num), st.one_of(st.none(), small_num)),
     st.tuples(st.just("range"), sess, dirn, bound, bound),
+    st.tuples(st.just("range"), sess, dirn, st.integers(0, 4), st.sampled_from([8, 14, 100, 2**31, sys.maxsize])),
+    st.tuples(st.just("set"), sess, st.one_of(st.none(), st.integers(1, 8)), st.one_of(st.none(), st.integers(1, 8))),
     st.tuples(st.just("one"), sess, dirn, num),
     st.tuples(st.just("all"), st.lists(sess, max_size=3), st.sampled_from([None, "in", "out"]), st.booleans()),
     st.tuples(st.just("sessions")),
     st.tuples(st.just("reopen")),
 )
 # every history starts with two mirror-image sessions so that isolation is exercised
-history = st.lists(op, min_size=1, max_size=30)
+history = st.tuples(st.booleans(), st.lists(op, min_size=1, max_size=30)).map(lambda x: ([("create", "A", "B"), ("create", "B", "A")] if x[0] else []) + x[1])
 
 
 def frame(n, pl):
@@ -307,7 +309,7 @@ def hyp_shard(acc, n, seed):
 
 
 def plan(tier, seed):
-    shards, n = (8, 250) if tier == "quick" else (16, 6000)
+    shards, n = (10, 500) if tier == "quick" else (16, 6000)
     return [("hyp_shard", {"n": n, "seed": derive_seed(seed, PROPERTY, i)}) for i in range(shards)]
 
 
